@@ -185,7 +185,7 @@ impl Property for C13 {
         let other = Address::generate(&env);
         let chain_b = resolve(&case.chain, case.seed ^ 1);
         let addr_b = resolve(&case.addr, case.seed ^ 2);
-        let payload_b = seeded_bytes(case.seed, case.len as usize);
+        let payload_b = shaped_bytes(case.seed, case.len as usize);
         let chain = sstr_bytes(&env, &chain_b);
         let addr = sstr_bytes(&env, &addr_b);
         let payload = Bytes::from_slice(&env, &payload_b);
